@@ -157,7 +157,10 @@ func script(n int, rng *rand.Rand, tracking bool) []tline {
 			}
 			id := fmt.Sprintf("id%d", kk)
 			ls[k] = tline{raw: fmt.Sprintf(":irc 352 me2 #c %s host%d irc %s H :0 Real %d", id, kk, nm, kk), verb: "352",
-				witness: func(st state.Tracker, me func() *state.Nick) bool { nk := st.GetNick(nm); return nk != nil && nk.Ident == id }}
+				witness: func(st state.Tracker, me func() *state.Nick) bool {
+					nk := st.GetNick(nm)
+					return nk != nil && nk.Ident == id
+				}}
 		}
 	}
 	return ls
